@@ -71,6 +71,10 @@ class Workload:
                 )
             )
         wf = Workflow.create(application="verif", name=self.name, stages=stages, context=dict(self.wf_ctx))
+        if any(s.type == "vsyn" for s in self.stages):
+            register_builders(world)
+            if self.notes == "failpost":
+                world.behaviours[("post", "t")] = {"kind": "terminal"}
         return wf
 
     # static graph helpers used by oracles ---------------------------------
@@ -279,6 +283,41 @@ def choice3():
 
 def suspend_gate():
     return Workload("gate", [St("A"), St("G", ("A",), tasks=[("t", {"kind": "suspend"})]), St("Z", ("G",))])
+
+
+def synthetic(fail_post=False):
+    """A -> S(type vsyn: before-stage 'pre', own task, after-stage 'post') -> Z."""
+    return Workload(
+        "synthetic" + ("_failpost" if fail_post else ""),
+        [St("A"), St("S", ("A",), type="vsyn"), St("Z", ("S",))],
+        notes="failpost" if fail_post else "",
+    )
+
+
+def register_builders(world):
+    from stabilize.models.stage import StageExecution as SE, SyntheticStageOwner
+    from stabilize.models.task import TaskExecution as TE
+    from stabilize.stages.builder import StageDefinitionBuilder, get_default_factory
+
+    class VSynBuilder(StageDefinitionBuilder):
+        @property
+        def type(self):
+            return "vsyn"
+
+        def _mk(self, stage, name, owner):
+            s = SE.create_synthetic(type="v", name=name, parent=stage, owner=owner)
+            s.tasks = [TE.create(name="t", implementing_class="v_t", stage_start=True, stage_end=True)]
+            return s
+
+        def before_stages(self, stage, graph):
+            graph.add(self._mk(stage, "pre", SyntheticStageOwner.STAGE_BEFORE))
+
+        def after_stages(self, stage, graph):
+            graph.add(self._mk(stage, "post", SyntheticStageOwner.STAGE_AFTER))
+
+    get_default_factory().register(VSynBuilder())
+    world.behaviours.setdefault(("pre", "t"), {"kind": "ok", "out": {"o_pre": ("name",)}})
+    world.behaviours.setdefault(("post", "t"), {"kind": "ok", "out": {"o_post": ("name",)}})
 
 
 # ---------------------------------------------------------------------------
